@@ -135,7 +135,7 @@ func Run(id string, start time.Time) int {
 	for _, s := range seeds {
 		rn.corpus[h.Hash(string(s.Data))] = true
 	}
-	nIn := len(seeds) + h.Pick(8000, 120000)
+	nIn := len(seeds) + h.Pick(8000, 80000)
 	nCLI := NCLI(len(seeds))
 
 	if d, err := strconv.Atoi(os.Getenv("P16_DEBUG_N")); err == nil { // debugging aid only
@@ -165,7 +165,7 @@ func Run(id string, start time.Time) int {
 			"the CPU limit (" + strconv.Itoa(cpuLimitSec) + " s CPU time per CLI invocation / per in-process input) is more than two orders of magnitude above the slowest benign case",
 			"native go test -fuzz (coverage guided) is not part of this check",
 		},
-		MinEvents: int64(h.Pick(6000, 90000)), EventsKey: "inproc_inputs_started",
+		MinEvents: int64(h.Pick(6000, 60000)), EventsKey: "inproc_inputs_started",
 		Extra: map[string]any{"cpu_limit_s": cpuLimitSec, "memory_limit_kib": memLimitKB, "documented_exit_codes": "0,1,50,100-110,200-207"},
 	}, rn.part)
 }
@@ -319,6 +319,19 @@ func (rn *runner) cli(inputs []Input) {
 				continue
 			}
 			rn.part.Count("cli_crashes", 1)
+			if strings.HasPrefix(sig, "C16 | panic") || strings.HasPrefix(sig, "C16 | fatal") {
+				// a panicking goroutine runs its deferred calls first (errgroup's Done), so other goroutines
+				// race ahead and may crash on the half-built state before the runtime has finished dying:
+				// the crash site printed can be a secondary one. One P makes the primary site win.
+				res1 := h.CLI{Bin: "/bin/sh", Dir: dir, Args: append([]string{"-c", script, "sh", rn.bin}, args...), Env: append(env, "GOMAXPROCS=1"), Timeout: 120 * time.Second}.Run()
+				if sig1, what1 := classify(res1.Stderr, res1.Signal, res1.Exit, res1.TimedOut, res1.CPU, "cli:"+iv.m.name); strings.HasPrefix(sig1, "C16 | panic") || strings.HasPrefix(sig1, "C16 | fatal") {
+					if sig1 != sig {
+						rn.part.Count("crash_site_reattributed_with_one_P", 1)
+						what1 += " [with GOMAXPROCS unset the dump showed: " + sig + "]"
+					}
+					sig, what, res = sig1, what1, res1
+				}
+			}
 			rn.violation(sig, fmt.Sprintf("task %q on a mutant of %s (%v): %s", args, in.SeedName, in.Muts, what), func() map[string]string {
 				return rn.witness(in, map[string]any{"channel": "cli", "argv": append([]string{"task"}, args...), "env": env, "exit": res.Exit, "signal": res.Signal,
 					"cpu_ms": res.CPU.Milliseconds(), "stdout": h.Truncate(res.Stdout, 2000), "stderr": h.Truncate(res.Stderr, 12000)})
@@ -368,7 +381,7 @@ func (rn *runner) inproc(inputs []Input) {
 				os.Remove(journal)
 				last, stage, done, res := rn.runChild(manifest, journal, errf, from, -1, base)
 				rn.tally(journal)
-				if done {
+				if done && res.Exit == 0 && res.Signal == "" {
 					break
 				}
 				if last < from {
@@ -399,14 +412,34 @@ func (rn *runner) inproc(inputs []Input) {
 					if !strings.HasPrefix(sig, "C16 | cpu-limit") {
 						j2, e2 := journal+".iso", errf+".iso"
 						os.Remove(j2)
-						_, stage2, done2, res2 := rn.runChild(manifest, j2, e2, last, last+1, base)
-						sig2, _ := classify(res2.Stderr, res2.Signal, res2.Exit, false, 0, "inproc:"+strings.SplitN(stage2, " ", 2)[0])
+						_, stage2, done2, res2 := rn.runChild(manifest, j2, e2, last, last+1, base, "GOMAXPROCS=1")
+						if done2 && res2.Exit == 0 && last > from {
+							// the dying child's main goroutine may have raced ahead into the next input:
+							// the input before the journal's last one is the other candidate
+							os.Remove(j2)
+							if _, st, dn, rs := rn.runChild(manifest, j2, e2, last-1, last, base, "GOMAXPROCS=1"); !(dn && rs.Exit == 0) {
+								rn.part.Count("crash_attributed_to_previous_input", 1)
+								stage2, done2, res2 = st, dn, rs
+								in = mine[last-1]
+							}
+						}
+						sig2, what2 := classify(res2.Stderr, res2.Signal, res2.Exit, false, 0, "inproc:"+strings.SplitN(stage2, " ", 2)[0])
+						if sig2 != sig && (strings.HasPrefix(sig2, "C16 | panic") || strings.HasPrefix(sig2, "C16 | fatal")) {
+							// see the CLI channel: with one P the primary crash site wins the race to the dump
+							rn.part.Count("crash_site_reattributed_with_one_P", 1)
+							what = what2 + " [in the batch child the dump showed: " + sig + "]"
+							sig, stage, res = sig2, stage2, res2
+						}
+						done2 = done2 && res2.Exit == 0 && res2.Signal == ""
 						same := !done2 && sig2 == sig
 						iso = map[string]any{"reproduced_alone": same, "alone_stage": stage2, "alone_signature": sig2, "alone_completed": done2}
 						if same {
 							rn.part.Count("inproc_crashes_reproduced_alone", 1)
 						} else {
 							rn.part.Count("inproc_crashes_not_reproduced_alone", 1)
+							rn.part.SetAdd("not_reproduced_alone", sig)
+							rn.part.Sample(map[string]any{"note": "crash in the batch child that the same input alone in a fresh child did not reproduce", "signature": sig, "stage": stage,
+								"alone_signature": sig2, "alone_completed": done2, "input_index": in.Index, "mutators": in.Muts, "stderr_head": h.Truncate(res.Stderr, 600)}, 12)
 							what += fmt.Sprintf(" [alone in a fresh child: completed=%v signature=%q]", done2, sig2)
 						}
 					}
@@ -440,7 +473,10 @@ type childResult struct {
 	TimedOut bool
 }
 
-// lastEntry reads the journal: index and stage of the last entry.
+// lastEntry reads the journal: index and stage of the last call entry, and
+// whether the child wrote "done". (A child can write "done" and still die: a
+// panicking goroutine runs its deferred calls - errgroup's Done - before the
+// runtime prints the dump, and the main goroutine races ahead meanwhile.)
 func lastEntry(journal string) (idx int, stage string, done bool) {
 	idx = -1
 	data := h.ReadFile(journal)
@@ -448,21 +484,22 @@ func lastEntry(journal string) (idx int, stage string, done bool) {
 	for k := len(lines) - 1; k >= 0; k-- {
 		l := lines[k]
 		if l == "done" {
-			return idx, "", true
+			done = true
+			continue
 		}
 		if c := strings.Index(l, ":"); c > 0 {
-			if strings.HasPrefix(l[c+1:], "CPULIMIT") {
-				continue // written by the CPU guard; the entry before it names the stage
+			if strings.HasPrefix(l[c+1:], "CPULIMIT") || strings.HasPrefix(l[c+1:], "cpu-ms") || l[c+1:] == "ok" {
+				continue // bookkeeping entries; the entry before them names the call
 			}
 			if n, err := strconv.Atoi(l[:c]); err == nil {
-				return n, l[c+1:], false
+				return n, l[c+1:], done
 			}
 		}
 	}
-	return -1, "", false
+	return -1, "", done
 }
 
-func (rn *runner) runChild(manifest, journal, errf string, from, to int, base string) (last int, stage string, done bool, res childResult) {
+func (rn *runner) runChild(manifest, journal, errf string, from, to int, base string, extraEnv ...string) (last int, stage string, done bool, res childResult) {
 	ef, _ := os.Create(errf)
 	script := fmt.Sprintf(`ulimit -v %d; exec "$@"`, memLimitKB)
 	argv := []string{"-c", script, "sh", rn.child, manifest, journal, strconv.Itoa(from), strconv.Itoa(cpuLimitSec)}
@@ -471,7 +508,7 @@ func (rn *runner) runChild(manifest, journal, errf string, from, to int, base st
 	}
 	cmd := exec.Command("/bin/sh", argv...)
 	cmd.Dir = base
-	cmd.Env = append(h.BaseEnv(base), "PATH=/nonexistent-p16", "TASK_X_REMOTE_TASKFILES=1")
+	cmd.Env = append(append(h.BaseEnv(base), "PATH=/nonexistent-p16", "TASK_X_REMOTE_TASKFILES=1"), extraEnv...)
 	cmd.Stdout, cmd.Stderr = ef, ef
 	if err := cmd.Start(); err != nil {
 		ef.Close()
